@@ -3,6 +3,7 @@ package refeval
 import (
 	"errors"
 	"fmt"
+	"math"
 	"math/big"
 
 	"go.starlark.net/starlark"
@@ -370,20 +371,21 @@ func clamp(i, lo, hi int) int {
 	return i
 }
 
-// satInt converts an int index or stride, saturating values beyond int32 (they are clamped to
-// the sequence length anyway).
+// satInt converts an int index or stride; a value too large for the arithmetic below is replaced
+// by a huge one of the same sign (indices are clamped to the sequence length anyway).
 func satInt(v starlark.Value) (int, error) {
 	i, ok := v.(starlark.Int)
 	if !ok {
 		return 0, fmt.Errorf("got %s, want int", v.Type())
 	}
-	if n, ok := i.Int64(); ok && n >= -1<<31 && n < 1<<31 {
+	const limit = math.MaxInt / 2
+	if n, ok := i.Int64(); ok && n >= -limit && n <= limit {
 		return int(n), nil
 	}
 	if i.Sign() < 0 {
-		return -1 << 31, nil
+		return -limit, nil
 	}
-	return 1<<31 - 1, nil
+	return limit, nil
 }
 
 // ---- comprehensions ----
